@@ -106,6 +106,8 @@ class Geometric(DPMechanism):
 
         # Need to account for overlap of 0-value between distributions of different sign
         unif_rv = self._rng.random() - 0.5
+        while unif_rv == 0:  # log(0) below would give infinite noise
+            unif_rv = self._rng.random() - 0.5
         unif_rv *= 1 + np.exp(self._scale)
         sgn = -1 if unif_rv < 0 else 1
 
